@@ -125,19 +125,20 @@ def case_curve(loadcase, fam, name, rep):
                 others = [a for a in range(d) if a != axis]
                 A0 = float(np.prod(L[others]))
             else:
-                axes = (0, 1)
+                pairs = [(0, 1), (1, 0)] if d == 2 else [(0, 1), (1, 0), (0, 2), (2, 0), (1, 2), (2, 1)]
+                axes = pairs[rep % len(pairs)]
                 bounds, lc = fem.dof.biaxial(field, axes=axes, clampes=(False, False), sym=True, moves=(0.0, 0.0))
-                top = np.array([float(rng.uniform(0.1, 0.3)) * L[0], float(rng.uniform(-0.1, 0.25)) * L[1]])
+                top = np.array([float(rng.uniform(0.1, 0.3)) * L[axes[0]], float(rng.uniform(-0.1, 0.25)) * L[axes[1]]])
                 t = np.linspace(0, 1, nsub + 1)[1:]
-                key = "move-right-0"
-                axis = 0
-                others = [a for a in range(d) if a != 0]
+                key = "move-right-%d" % axes[0]
+                axis = axes[0]
+                others = [a for a in range(d) if a != axis]
                 A0 = float(np.prod(L[others]))
             mini = gen.FAMILIES[fam].get("mini")
             if loadcase == "uniaxial":
                 ramp = {bounds[key]: move}
             else:
-                ramp = {bounds["move-right-0"]: t * top[0], bounds["move-right-1"]: t * top[1]}
+                ramp = {bounds["move-right-%d" % axes[0]]: t * top[0], bounds["move-right-%d" % axes[1]]: t * top[1]}
             step = fem.Step([body], ramp=ramp, boundaries=bounds)
             job = fem.CharacteristicCurve([step], bounds[key])
             try:
@@ -162,13 +163,13 @@ def case_curve(loadcase, fam, name, rep):
                     P11, l2, l3 = OH.uniaxial(W, lam, planestrain=planestrain)
                     worst_x = max(worst_x, abs(x[k][axis] - mv))
                 else:
-                    l1, l2 = 1 + t[k] * top[0] / L[0], 1 + t[k] * top[1] / L[1]
+                    l1, l2 = 1 + t[k] * top[0] / L[axes[0]], 1 + t[k] * top[1] / L[axes[1]]
                     if planestrain:
                         P = OH.principal_P(W, [l1, l2, 1.0])
                         P11 = P[0]
                     else:
                         P11, P22, l3 = OH.biaxial(W, l1, l2)
-                    worst_x = max(worst_x, abs(x[k][0] - t[k] * top[0]))
+                    worst_x = max(worst_x, abs(x[k][axis] - t[k] * top[0]))
                 Pscale = max(Pscale, abs(P11))
                 worst_y = max(worst_y, abs(y[k][axis] - P11 * A0))
             sc = max(Pscale * A0, 1e-300)
@@ -195,7 +196,11 @@ def case_curve(loadcase, fam, name, rep):
                     lams[a] = l2
                 origin = np.zeros(d) if symflag else None
             else:
-                lams = np.array([1 + top[0] / L[0], 1 + top[1] / L[1]] + ([OH.biaxial(W, 1 + top[0] / L[0], 1 + top[1] / L[1])[2]] if d == 3 else []))
+                la, lb = 1 + top[0] / L[axes[0]], 1 + top[1] / L[axes[1]]
+                lams = np.ones(d)
+                lams[axes[0]], lams[axes[1]] = la, lb
+                if d == 3:
+                    lams[[a for a in range(3) if a not in axes][0]] = OH.biaxial(W, la, lb)[2]
                 origin = np.zeros(d)
             if origin is not None:
                 uex = X * (lams - 1)
